@@ -6,9 +6,11 @@
 # Each patch is applied at the `head` recorded in its result.json (else at /repo's HEAD).
 set -u
 export GOFLAGS=-mod=mod GOPROXY=off GOSUMDB=off GOTOOLCHAIN=local
-MUST_BREAK="C06-b2 C18-b2 C18-c1 C05-c2 C09-b2 C11-b2 C14-c2 C18-2 C18-b1 C18-c2 C18-f2 C19-h22"
-# repairs that rewrote a generation-guarded memo test and are harmless for C18
-QUIET_COMMITS="673b372"
+MUST_BREAK="C06-b2 C18-b2 C18-c1 C05-c2 C09-b2 C11-b2 C14-c2 C18-2 C18-b1 C18-c2 C18-f2 C19-h22 C18-i22"
+# repairs that rewrote a generation-guarded memo test / widened the unlink loop and are harmless for C18
+QUIET_COMMITS="0c84daa"
+# commits that MUST break: 673b372 is the tree before the D66 repair (unlink loop without ms.unrevisioned)
+BREAK_COMMITS="673b372"
 T=/tmp/c18state.$$; mkdir -p $T; trap "rm -rf $T" EXIT
 (cd /verif/harness && go build -o $T/extract-state ./cmd/extract-state) || exit 2
 git clone -q /repo $T/wt || exit 2
@@ -16,26 +18,47 @@ HEAD=$(git -C /repo rev-parse HEAD)
 evalrepo() {   # prints: (justified, owned, globals, [unjustified fields])
   $T/extract-state -repo $T/wt -o $T/State.lean 2>$T/err.txt || { echo "EXTRACT-FAILED $(head -c 200 $T/err.txt)"; return; }
   printf 'open Goyang.Model.StateInv in\n#eval (CarriedStateJustified Goyang.Gen.State.table, OwnedTypesConfined Goyang.Gen.State.owned, GlobalsExplained Goyang.Gen.State.globals, unjustified Goyang.Gen.State.table)\n' >> $T/State.lean
-  (cd /verif/lean && lake env lean $T/State.lean 2>&1 | tr '\n' ' '); echo
+  (cd /verif/lean && lake env lean $T/State.lean 2>&1 | tr '\n' ' ')
+  # ... and a digest of what the notes say about the offenders (class and reason, without line numbers)
+  echo " #$(grep -h 'NOT DISPOSED\|UNCLASSIFIED\|NOT PINNED\|OUTSIDE ITS PINNED\|PACKAGE-LEVEL\|NOT CONFINED' $T/State.notes.txt | sed 's/\.go:[0-9]*/.go/g' | sort -u | md5sum | cut -c1-8)"
 }
+declare -A BASE
+# evalpatch <patch>: applies at /repo's HEAD when the patch applies there, else at the `head` recorded
+# in its result.json; prints "<result with the patch> || <result of that tree without the patch>".
+# A patch is QUIET when both are equal (older trees have findings of their own, e.g. the unlink loop
+# before the D66 repair), it BREAKS when the patched tree has something the base tree has not.
 evalpatch() {
-  local P=$1 H
-  H=$(python3 -c "import json,sys,os; p=os.path.join(os.path.dirname(sys.argv[1]),'result.json'); print(json.load(open(p)).get('head','') if os.path.exists(p) else '')" $P 2>/dev/null)
-  (cd $T/wt && git checkout -q -- . && git clean -fdq && git checkout -q --detach ${H:-$HEAD} 2>/dev/null && git apply $P 2>/dev/null) || { echo "APPLY-FAILED"; return; }
-  evalrepo
+  local P=$1 H B
+  H=$HEAD
+  if ! (cd $T/wt && git checkout -q -- . && git clean -fdq && git checkout -q --detach $H 2>/dev/null && git apply --check $P 2>/dev/null); then
+    H=$(python3 -c "import json,sys,os; p=os.path.join(os.path.dirname(sys.argv[1]),'result.json'); print(json.load(open(p)).get('head','') if os.path.exists(p) else '')" $P 2>/dev/null)
+    [ -z "$H" ] && { echo "APPLY-FAILED"; return; }
+  fi
+  if [ -z "${BASE[$H]:-}" ]; then
+    (cd $T/wt && git checkout -q -- . && git clean -fdq && git checkout -q --detach $H 2>/dev/null) || { echo "APPLY-FAILED"; return; }
+    BASE[$H]=$(evalrepo)
+  fi
+  (cd $T/wt && git checkout -q -- . && git clean -fdq && git checkout -q --detach $H 2>/dev/null && git apply $P 2>/dev/null) || { echo "APPLY-FAILED"; return; }
+  echo "$(evalrepo) || ${BASE[$H]}"
 }
+same() { [ "${1%% ||*}" == "${1##*|| }" ]; }
 fail=0
 for p in $MUST_BREAK; do
   r=$(evalpatch /verif/seeded/$p/patch.diff)
-  case "$r" in "(true, true, true, [])"*|APPLY-FAILED*|EXTRACT-FAILED*) echo "must-break $p: NOT CAUGHT  $r"; fail=1;; *) echo "must-break $p: breaks  $r";; esac
-  grep "NOT DISPOSED\|UNCLASSIFIED\|NOT PINNED\|NEW WRITER\|PACKAGE-LEVEL\|NOT CONFINED" $T/State.notes.txt | sort -u | head -3 | cut -c1-260
+  if same "$r" || [[ "$r" == APPLY-FAILED* ]] || [[ "$r" == EXTRACT-FAILED* ]]; then echo "must-break $p: NOT CAUGHT  $r"; fail=1; else echo "must-break $p: breaks  ${r%% ||*}"; fi
+  grep "NOT DISPOSED\|UNCLASSIFIED\|NOT PINNED\|OUTSIDE ITS PINNED\|PACKAGE-LEVEL\|NOT CONFINED" $T/State.notes.txt | sort -u | head -3 | cut -c1-260
 done
 quiet=0; alarms=0
 for d in /verif/seeded/benign/*/; do
   r=$(evalpatch $d/patch.diff)
-  case "$r" in "(true, true, true, [])"*) quiet=$((quiet+1));; *) alarms=$((alarms+1)); echo "benign $(basename $d): ALARM  $r"; fail=1;; esac
+  if same "$r" && [[ "$r" != APPLY-FAILED* ]]; then quiet=$((quiet+1)); else alarms=$((alarms+1)); echo "benign $(basename $d): ALARM  $r"; fail=1; fi
 done
 echo "benign: $quiet quiet, $alarms alarm"
+for c in $BREAK_COMMITS; do
+  (cd $T/wt && git checkout -q -- . && git clean -fdq && git checkout -q --detach $c) || { echo "commit $c: not found"; continue; }
+  r=$(evalrepo)
+  case "$r" in "(true, true, true, [])"*) echo "must-break commit $c: NOT CAUGHT"; fail=1;; *) echo "must-break commit $c: breaks  $r";; esac
+done
 for c in $QUIET_COMMITS; do
   (cd $T/wt && git checkout -q -- . && git clean -fdq && git checkout -q --detach $c) || { echo "commit $c: not found"; continue; }
   r=$(evalrepo)
